@@ -23,6 +23,20 @@ claim("C09",
       "Bounded exhaustive enumeration plus seeded structured/mutated strings; numbers beyond u32 may be rejected or preserved.",
       GEN, "DESIGN.md 5/C09")
 
+claim("C10",
+      "SemVerOrder.tla transcribes SemVer 2.0.0 section 11 on parsed values; TLC shows it reflexive, antisymmetric, total, transitive and 'equal iff same' on the stated universe, and emits one row per ordered pair (some with build metadata) that the harness replays through SemVer::from_str, Ord and PartialEq; random comparisons with numbers up to u64, sort() results and GitUtils::find_max_version_tag results recorded from the code are validated by TLC.",
+      "Exhaustive over {0,1,2,10}^3 + 2 cores x identifier lists <= 2 (quick) / 3 (thorough) over {0 2 10 A a a0}; random beyond.",
+      GEN, "DESIGN.md 5/C10")
+claim("C11",
+      "Pep440Order.tla is the key fixed by the property; TLC shows the order laws, the pre < dev < final < post chain and spelling independence (each of three spellings of every universe value parses with Pep440Grammar to a key-equal value) on a 512-value universe, and emits one row per ordered pair in varied spellings for PEP440::from_str, Ord and PartialEq; random structured comparisons, sorts and max-tag selections recorded from the code are validated by TLC.",
+      "Exhaustive over 2 epochs x 4 release shapes x 4 pre x 2 post x 2 dev x 4 local (262144 ordered pairs); random beyond.",
+      GEN, "DESIGN.md 5/C11")
+claim("C17",
+      "Calendar.tla is a day-successor automaton (no civil-date formula shared with chrono); TLC walks all 84006 days to 2199-12-31 checking well-formedness and anchor dates and prints the 16 pattern values for selected days, which are compared with resolve_timestamp and, on month boundaries, with the CalVer presets, ts(<pattern>) components and the last_timestamp fallback through the version pipeline; random instants recorded under a non-UTC TZ are validated by a trace spec that walks the same automaton.",
+      "Quick: every 7th day plus all month/year/leap/week boundaries (19935 days x 3 instants x 16 patterns); thorough: every day.",
+      GEN, "DESIGN.md 5/C17")
+
+
 def main():
     m = {
         "version": 1,
